@@ -36,4 +36,13 @@ def jobs(tier):
         js.append(Job(name=f"evald-{k}", src="evald.c", group="C07.3 floating folder", defs={"KIND": k}, units=["type.c"], mode="dfcc", enforce="eval_double", rec=True,
                       replace=["add_type", "eval2"], cut=["error", "error_tok", "error_at", "warn_tok"], timeout=300, replay=None,
                       sample=f"eval_double on a {k} node of type float or double, all operand values"))
+    TIN = ["bool", "char", "uchar", "short", "ushort", "int", "uint", "long", "ulong", "enum"]
+    for k in ("ND_EQ", "ND_NE", "ND_LT", "ND_LE", "ND_NOT", "ND_LOGAND", "ND_LOGOR", "ND_COND"):
+        js.append(Job(name=f"evalf-{k}", src="evalf.c", group="C07.4 integer results over floating operands", defs={"KIND": k, "TO": "5"}, units=["type.c"], mode="dfcc", enforce="eval2", rec=True,
+                      replace=["add_type", "eval_double"], cut=["error", "error_tok", "error_at", "warn_tok"], no_checks=["signed-overflow", "undefined-shift"], timeout=300,
+                      sample=f"eval2({k}) with float/double operands, every value incl. NaN and fractions"))
+    for to in (0, 2, 3, 5, 6, 7, 8):
+        js.append(Job(name=f"evalf-cast-{TIN[to]}", src="evalf.c", group="C07.4 integer results over floating operands", defs={"KIND": "ND_CAST", "TO": str(to)}, units=["type.c"], mode="dfcc", enforce="eval2", rec=True,
+                      replace=["add_type", "eval_double"], cut=["error", "error_tok", "error_at", "warn_tok"], no_checks=["signed-overflow", "undefined-shift"], timeout=300,
+                      sample=f"eval2(cast float/double -> {TIN[to]}) for every value whose truncation is representable"))
     return js
